@@ -68,11 +68,25 @@ fn covered_by(q: &str, scenario: &str, cfg: &crate::h::Cfg, quick: bool) -> bool
 }
 
 fn run_item(exe: &str, item: &Item, bound: usize, workers: usize, seed: u64, deadline: Instant) -> ItemResult {
+    run_item_from(exe, item, bound, workers, seed, deadline, None)
+}
+
+/// `only`: run just that bound (used to deepen an instance whose lower bounds were completed before)
+fn run_item_from(exe: &str, item: &Item, bound: usize, workers: usize, seed: u64, deadline: Instant, only: Option<usize>) -> ItemResult {
     let mut res = ItemResult { item: item.clone(), bound_target: bound, bound_completed: None, execs_by_bound: vec![], stats: Stats::default(), try_sites: vec![], vios: vec![], nondet: vec![], crashed: vec![], skipped: false };
     let mut sites: Vec<(String, u32)> = vec![];
     // bounds are iterated so that the first counter-example has the fewest preemptions; the cheap
     // bounds below target-1 are skipped when the target is high (each bound re-covers the lower ones)
-    let start = if bound >= 2 { bound - 1 } else { 0 };
+    let start = match only {
+        Some(b) => b,
+        None => {
+            if bound >= 2 {
+                bound - 1
+            } else {
+                0
+            }
+        }
+    };
     for b in start..=bound {
         if Instant::now() > deadline {
             res.stats.cap_hit = Some("wall-clock cap of the check".into());
@@ -289,7 +303,42 @@ pub fn check_main(args: &[String], exe_normal: &str) -> i32 {
             h.join().unwrap();
         }
     }
-    let results = results.lock().unwrap().clone();
+    let mut results = results.lock().unwrap().clone();
+
+    // ---- thorough tier: spend what is left of the target time on one more preemption for the targeted instances, cheapest first
+    if !quick && !stop.load(std::sync::atomic::Ordering::SeqCst) {
+        let target = Duration::from_secs(std::env::var("VCHECK_THOROUGH_TARGET_S").ok().and_then(|s| s.parse().ok()).unwrap_or(900));
+        let soft_deadline = t0 + target;
+        let total: u64 = results.iter().map(|r| r.stats.execs).sum();
+        let rate = (total as f64 / t0.elapsed().as_secs_f64().max(1.0)).max(1000.0);
+        let mut cands: Vec<(u64, usize)> = results
+            .iter()
+            .enumerate()
+            .filter(|(_, r)| !r.item.small && !r.skipped && r.bound_completed == Some(r.bound_target) && r.vios.is_empty())
+            .map(|(i, r)| (*r.execs_by_bound.last().unwrap_or(&0), i))
+            .collect();
+        cands.sort();
+        for (last, i) in cands {
+            let now = Instant::now();
+            if now > soft_deadline || now > deadline {
+                break;
+            }
+            // one more preemption costs roughly 15-25 times the previous bound
+            let est_s = (last as f64 * 20.0) / rate;
+            if est_s > (soft_deadline - now).as_secs_f64() {
+                continue;
+            }
+            let (item, b) = (results[i].item.clone(), results[i].bound_target + 1);
+            let mut r = run_item_from(&exe, &item, b, nworkers, seed, deadline.min(soft_deadline + Duration::from_secs(120)), Some(b));
+            r.item.cfg.0.push(("extra_depth".to_string(), 1));
+            let bad = has_owned_violation(&r) || !r.nondet.is_empty();
+            // an extra-depth pass that ran out of time is simply not counted as completed
+            results.push(r);
+            if bad {
+                break;
+            }
+        }
+    }
 
     // ---- verdicts ---------------------------------------------------------------------------
     let mut machinery_errors: Vec<String> = vec![];
@@ -393,7 +442,9 @@ pub fn check_main(args: &[String], exe_normal: &str) -> i32 {
     let total_steps: u64 = results.iter().map(|r| r.stats.steps).sum();
     let total_nontrivial: u64 = results.iter().map(|r| r.stats.nontrivial).sum();
     let total_audits: u64 = results.iter().map(|r| r.stats.audits).sum();
-    let all_complete = results.iter().all(|r| !r.skipped && r.bound_completed == Some(r.bound_target));
+    // (extra-depth passes are a bonus: one that ran out of time does not make the planned exploration incomplete)
+    let is_extra = |r: &ItemResult| r.item.cfg.0.iter().any(|e| e.0 == "extra_depth");
+    let all_complete = results.iter().all(|r| is_extra(r) || (!r.skipped && r.bound_completed == Some(r.bound_target)));
     let mut witnesses: BTreeSet<String> = BTreeSet::new();
     let mut distinct_outcomes = 0usize;
     let mut samples = vec![];
@@ -415,7 +466,7 @@ pub fn check_main(args: &[String], exe_normal: &str) -> i32 {
                 ]));
             }
         }
-        if r.skipped || r.bound_completed != Some(r.bound_target) {
+        if (r.skipped || r.bound_completed != Some(r.bound_target)) && !is_extra(r) {
             incomplete.push(format!("{}[{}] target PB={} completed {:?}{}", r.item.scenario, r.item.cfg.to_string(), r.bound_target, r.bound_completed, r.stats.cap_hit.as_ref().map(|c| format!(" ({})", c)).unwrap_or_default()));
         }
         if per_item.len() < 400 {
